@@ -25,12 +25,27 @@ package c24
 //	                           incomplete and deliver, once and in order, when the handshake
 //	                           completes - before the customs sent afterwards.
 //
-// Latitude: U2 keeps the connected backend in a complete phase and only varies the client
-// phase; the queueing condition of handlePluginMessage is `!(client complete && backend
-// complete)`, of which this is one instance. A flush of the pre-join queue racing the read
-// loop from the backend's goroutine exists in Gate only inside handleBackendJoinGame on a
-// server switch, where the drained messages go to the *new* backend; the statement does not
-// say which backend is "its" backend there, so that schedule is not part of the workload.
+//	U3 join drain              the same client with an incomplete handshake and k customs in the
+//	                           pre-join queue is moved to a NEW backend: the JoinGame of that
+//	                           backend is fed to Gate's real backendTransitionSessionHandler
+//	                           (which clears the current server, runs handleBackendJoinGame and
+//	                           only then records the destination as connected). Afterwards the
+//	                           client sends a channel registration (always forwarded directly),
+//	                           more customs, and - in part of the histories - the rest of its
+//	                           handshake, whose final Ack flushes the queue.
+//
+// Latitude: U2/U3 keep the backends in a complete phase and only vary the client phase; the
+// queueing condition of handlePluginMessage is `!(client complete && backend complete)`, of
+// which this is one instance. For U3 the statement does not name the backend; the unchanged
+// code hands the queue to the destination of the join, and the oracle asserts only what holds
+// for whichever backend receives the messages plus what that code does: every message queued
+// before the JoinGame is delivered exactly once, in order, to the destination, before any
+// plugin message sent after the JoinGame, also when the client never completes its handshake;
+// none of them reaches the server that was left. Customs sent *after* the join while the
+// handshake is still incomplete are queued again; if the handshake never completes they stay
+// queued on the unchanged tree too, so their loss is not judged (order and at-most-once are).
+// The JoinGame is handled on the goroutine that also feeds the client packets: U3 checks the
+// hand-over, not a race.
 
 import (
 	"context"
@@ -494,6 +509,123 @@ func unitPreJoin(r *lib.Run, px *proxy.Proxy, n int) {
 	}
 }
 
+// U3: the pre-join queue is handed to the destination of a JoinGame.
+func unitJoinDrain(r *lib.Run, px *proxy.Proxy, n int) {
+	u := &unitCase{r: r, n: n, rng: r.Rng(fmt.Sprintf("u3-%d", n))}
+	client := newRecConn("client", 340, state.Play, phase.LegacyForge)
+	backendA := newRecConn("backend-a", 340, state.Play, phase.Vanilla)
+	backendB := newRecConn("backend-b", 340, state.Play, phase.Vanilla)
+	fx := proxy.VerifC24New(px, client, prof(n))
+	a := fx.AddServerConn("a", backendA)
+	b := fx.AddServerConn("b", backendB)
+	fx.InstallPlayHandler()
+	desc := map[string]any{"unit": "pre-join-queue-join-drain", "n": n}
+	fx.SetInFlight(a)
+	if err := fx.TransitionJoinGame(a, e2e.MakeJoinGame(340, 7)); err != nil {
+		r.Inconclusive(fmt.Sprintf("unit join drain %d: first join failed: %v", n, err))
+		return
+	}
+	if !fx.ClientPhaseComplete() {
+		r.Inconclusive("unit join drain: first join did not complete the client phase")
+		return
+	}
+	fx.Player().(interface{ SendLegacyForgeHandshakeResetPacket() }).SendLegacyForgeHandshakeResetPacket()
+	steps := []*plugin.Message{fml(forge.ClientHelloDiscriminator, 2), fml(forge.ModListDiscriminator, 0), fml(forge.AckDiscriminator, 2), fml(forge.AckDiscriminator, 3), fml(forge.AckDiscriminator, 4), fml(forge.AckDiscriminator, 5)}
+	custom := func(class, ch string) {
+		m, _ := u.msg(class, ch, 16+u.rng.Intn(50))
+		fx.HandleClientPacket(m)
+	}
+	chans := []string{"c24:data", "c24:other", "MY|Chan"}
+	// part of the handshake before the move, customs in between: queued
+	before := u.rng.Intn(len(steps)) // 0..5 steps done, at least the final Ack outstanding
+	queued := 0
+	for i := 0; i <= before; i++ {
+		k := u.rng.Intn(4)
+		if i == before && queued == 0 {
+			k = 1 + u.rng.Intn(3)
+		}
+		for j := 0; j < k; j++ {
+			custom("early", chans[u.rng.Intn(3)])
+			queued++
+		}
+		if i < before {
+			fx.HandleClientPacket(steps[i])
+		}
+	}
+	if got := fx.QueuedPreJoin(); got != queued {
+		r.Inconclusive(fmt.Sprintf("unit join drain %d: %d customs sent with an incomplete handshake, %d in the queue", n, queued, got))
+		return
+	}
+	// the move: JoinGame of backend b through the real transition handler
+	fx.SetInFlight(b)
+	if err := fx.TransitionJoinGame(b, e2e.MakeJoinGame(340, 8)); err != nil {
+		r.Inconclusive(fmt.Sprintf("unit join drain %d: join of the new backend failed: %v", n, err))
+		return
+	}
+	atJoin := len(backendB.ids())
+	// afterwards: a registration (direct path), customs, maybe the rest of the handshake
+	finish := u.rng.Intn(2) == 0
+	afterClass := "limbo"
+	if finish {
+		afterClass = "after"
+	}
+	nReg := u.rng.Intn(2)
+	nAfter := u.rng.Intn(3)
+	for i := 0; i < nReg; i++ {
+		custom("after", "REGISTER")
+	}
+	for i := 0; i < nAfter; i++ {
+		custom(afterClass, chans[u.rng.Intn(3)])
+	}
+	if finish {
+		for i := before; i < len(steps); i++ {
+			fx.HandleClientPacket(steps[i])
+			if i < len(steps)-1 && u.rng.Intn(3) == 0 {
+				custom("after", chans[u.rng.Intn(3)])
+			}
+		}
+		for i := 0; i < 1+u.rng.Intn(2); i++ {
+			custom("after", chans[u.rng.Intn(3)])
+		}
+	}
+	desc["handshake_steps_before_move"], desc["queued_before_move"] = before, queued
+	desc["registrations_after"], desc["customs_after"], desc["handshake_completed_afterwards"] = nReg, nAfter, finish
+	desc["delivered_to_destination_at_join"] = atJoin
+	desc["still_queued_at_end"] = fx.QueuedPreJoin()
+	r.LogCase(desc)
+	if finish && !fx.ClientPhaseComplete() {
+		r.Inconclusive(fmt.Sprintf("unit join drain %d: the handshake did not complete", n))
+		return
+	}
+	got := backendB.ids()
+	fs := judge("unit-pre-join-join-drain", u.sent, got, map[string]bool{"early": true, "after": true, "limbo": true}, map[string]bool{"limbo": true})
+	for _, f := range fs {
+		w := map[string]any{"case": desc, "sent": headTail(u.sent), "delivered_ids_destination": headTailInts(got), "delivered_ids_left_server": headTailInts(backendA.ids())}
+		for k, v := range f.extra {
+			w[k] = v
+		}
+		r.Violation(f.sig, f.what, w)
+	}
+	if left := backendA.ids(); len(left) > 0 {
+		r.Violation("unit-pre-join-join-drain:queued-message-delivered-to-the-server-that-was-left", fmt.Sprintf("%d plugin messages queued before / sent after the JoinGame of the new backend reached the previous backend", len(left)),
+			map[string]any{"case": desc, "sent": headTail(u.sent), "delivered_ids_left_server": headTailInts(left)})
+	}
+	r.Eval(1)
+	r.Count("unit:join_drain_histories", 1)
+	r.Count("unit:join_drain_queued_before_join", queued)
+	r.Count("unit:join_drain_delivered_at_join", atJoin)
+	r.Count("unit:join_drain_delivered_total", len(got))
+	if finish {
+		r.Count("unit:join_drain_handshake_completed_afterwards", 1)
+	} else {
+		r.Count("unit:join_drain_handshake_never_completed", 1)
+	}
+	r.Distinct(fmt.Sprintf("u3|%d|%d|%d|%d|%v", before, queued, nReg, nAfter, finish))
+	if r.WantSample() {
+		r.Sample(desc)
+	}
+}
+
 func unitWorkload(r *lib.Run) {
 	px := unitProxy(r)
 	n := 0
@@ -511,6 +643,14 @@ func unitWorkload(r *lib.Run) {
 		k := n
 		if ok, pv := lib.Returns(e2e.Watchdog, func() { unitPreJoin(r, px, k) }); !ok {
 			r.Inconclusive(fmt.Sprintf("unit pre-join %d did not return (panic=%v)", k, pv))
+		}
+	}
+	drains := r.N(300, 8000)
+	for i := 0; i < drains; i++ {
+		n++
+		k := n
+		if ok, pv := lib.Returns(e2e.Watchdog, func() { unitJoinDrain(r, px, k) }); !ok {
+			r.Inconclusive(fmt.Sprintf("unit join drain %d did not return (panic=%v)", k, pv))
 		}
 	}
 	for _, q := range []string{"config", "pre-join"} {
